@@ -111,6 +111,9 @@ pub mod shim {
     pub assume_specification [u8::is_ascii_digit] (b: &u8) -> (r: bool)
         ensures r == (0x30 <= *b <= 0x39);
 
+    pub assume_specification<T, const N: usize> [ <Vec<T> as From<[T; N]>>::from ] (a: [T; N]) -> (r: Vec<T>)
+        ensures r@ == a@;
+
     /// rule R6: `[A, B].concat()`
     #[verifier::external_body]
     pub fn concat2(a: Vec<u8>, b: Vec<u8>) -> (r: Vec<u8>)
